@@ -442,8 +442,23 @@ func (d *dm) refreshAndCheck(where string, faulty bool) {
 	e.do("Query", func() { v = Query(e.cache, probe) })
 	e.r.State(e.w.FS.Digest("/") + fmt.Sprint(v.Devices))
 	unscannable := truth.UnscannableDirs()
+	// a file whose devices collide with a revision of a file the mutator touched
+	// inside the scan window may carry a conflict error for that scan
+	conflictWithTouched := map[string]bool{}
+	if len(opts.TolNames) > 0 {
+		for _, f := range truth.Files {
+			if f.State != "valid" {
+				continue
+			}
+			for _, q := range f.Meta.Qualified() {
+				if opts.TolNames[q] {
+					conflictWithTouched[f.Path] = true
+				}
+			}
+		}
+	}
 	opts.MayErr = func(p string) bool {
-		if tr.mayErr[p] {
+		if tr.mayErr[p] || conflictWithTouched[p] {
 			return true
 		}
 		for _, u := range unscannable {
